@@ -51,3 +51,48 @@ theorem load64_toNat (s : Array UInt8) (o : Nat) :
   simp [C.toU64, UInt64.toNat_add, UInt64.toNat_shiftLeft, Nat.shiftLeft_eq]
   omega
 end Lemmas
+
+namespace Lemmas
+open Gen
+
+theorem u8_fits (b : UInt8) : C.fitsS 32 (((b.toUInt16).toNat : Int) * 2 ^ 8) = true := by
+  have := b.toNat_lt
+  simp [C.fitsS]
+  omega
+
+theorem load8_ok (s : Array UInt8) (o : Nat) (h : o + 1 ≤ s.size) : _cbor_load_uint8.ok s o = true := by
+  simp [_cbor_load_uint8.ok]; omega
+
+theorem load16_ok (s : Array UInt8) (o : Nat) (h : o + 2 ≤ s.size) : _cbor_load_uint16.ok s o = true := by
+  unfold _cbor_load_uint16.ok
+  generalize s.getD o 0 = b0
+  generalize s.getD (o+1) 0 = b1
+  have h0 := b0.toNat_lt
+  have h1 := b1.toNat_lt
+  simp [C.fitsS]
+  omega
+
+theorem load32_ok (s : Array UInt8) (o : Nat) (h : o + 4 ≤ s.size) : _cbor_load_uint32.ok s o = true := by
+  unfold _cbor_load_uint32.ok
+  generalize s.getD (o+2) 0 = b2
+  have h2 := b2.toNat_lt
+  simp [C.fitsS]
+  omega
+
+theorem load64_ok (s : Array UInt8) (o : Nat) (h : o + 8 ≤ s.size) : _cbor_load_uint64.ok s o = true := by
+  unfold _cbor_load_uint64.ok
+  generalize s.getD (o+6) 0 = b6
+  have h6 := b6.toNat_lt
+  simp [C.fitsS]
+  omega
+
+theorem loadf_ok (s : Array UInt8) (o : Nat) (h : o + 4 ≤ s.size) : _cbor_load_float.ok s o = true := by
+  simp [_cbor_load_float.ok, load32_ok s o h]
+
+theorem loadd_ok (s : Array UInt8) (o : Nat) (h : o + 8 ≤ s.size) : _cbor_load_double.ok s o = true := by
+  simp [_cbor_load_double.ok, load64_ok s o h]
+
+theorem loadh_ok (s : Array UInt8) (o : Nat) (h : o + 2 ≤ s.size) : Ext._cbor_load_half.ok s o = true := by
+  simp [Ext._cbor_load_half.ok]; omega
+
+end Lemmas
